@@ -170,8 +170,14 @@ Definition kill (A : vars) (E : facts) : facts :=
   filter (fun xe => negb (vmem (fst xe) A) && vdisj (evars (snd xe)) A) E.
 
 Definition lit_facts (E : facts) : facts := filter (fun xe => is_lit (snd xe)) E.
+Definition has_lit (E : facts) (x : ident) : bool := vmem x (map fst (lit_facts E)).
+
+Definition env_of_facts (E : facts) : env :=
+  flat_map (fun xe => match lit_val (snd xe) with Some v => [(fst xe, v)] | None => [] end) E.
 
 Section Validator.
+(* literals deeper than kfuel are not used (the fuel slack of the soundness theorem) *)
+Variable kfuel : nat.
 Variable claim_ok : claim -> bool.
 (* a guess of the context a `with` header evaluates to (checked as a claim) *)
 Variable guess_ctx : facts -> expr -> option ctx.
@@ -182,7 +188,7 @@ Definition known_ctx (E : facts) (e' : expr) : option ctx :=
   | _ =>
       match guess_ctx (lit_facts E) e' with
       | Some c =>
-          if pure_na e' && forallb (fun x => vmem x (map fst (lit_facts E))) (evars e') &&
+          if pure_na e' && forallb (has_lit E) (efv [] e') &&
              claim_ok (Claim (lit_facts E) (Some CReal) e' (ECtxVal c))
           then Some c else None
       | None => None
@@ -192,17 +198,17 @@ Definition known_ctx (E : facts) (e' : expr) : option ctx :=
 Definition leaf_rw (E : facts) (oc : option ctx) (bvs : vars) (e e' : expr) : bool :=
   (match e with
    | EVar x =>
-       negb (vmem x bvs) && vdisj (evars e') bvs &&
-       existsb (fun ys => String.eqb x (fst ys) && expr_eqb (snd ys) e') E
+       negb (vmem x bvs) && vdisj (evars e') bvs && Nat.leb (lit_depth e') kfuel &&
+       existsb (fun ys => String.eqb x (fst ys) && expr_eqb (snd ys) e' && vdisj (evars (snd ys)) bvs) E
    | _ => false
    end)
-  || (is_lit e' && negb (is_lit e) &&
+  || (is_lit e' && negb (is_lit e) && Nat.leb (lit_depth e') kfuel &&
       pure_na e &&
-      forallb (fun x => negb (vmem x bvs) && vmem x (map fst (lit_facts E))) (evars e) &&
+      forallb (fun x => negb (vmem x bvs) && has_lit E x) (efv [] e) &&
       claim_ok (Claim (lit_facts E) oc e e')).
 
 Definition kb_rw (E : facts) (oc : option ctx) (bvs : vars) (c : expr) : option bool :=
-  if pure_na c && forallb (fun x => negb (vmem x bvs) && vmem x (map fst (lit_facts E))) (evars c) then
+  if pure_na c && forallb (fun x => negb (vmem x bvs) && has_lit E x) (efv [] c) then
     if claim_ok (Claim (lit_facts E) oc c (EBool true)) then Some true
     else if claim_ok (Claim (lit_facts E) oc c (EBool false)) then Some false
     else None
@@ -211,8 +217,8 @@ Definition kb_rw (E : facts) (oc : option ctx) (bvs : vars) (c : expr) : option 
 Definition gen (p : pat) (e e' : expr) (E : facts) : facts :=
   match p with
   | PVar x =>
-      (if simple e && negb (vmem x (evars e)) then [(x, e)] else []) ++
-      (if simple e' && negb (vmem x (evars e')) then [(x, e')] else []) ++ E
+      (if simple e && negb (vmem x (evars e)) && Nat.leb (lit_depth e) kfuel then [(x, e)] else []) ++
+      (if simple e' && negb (vmem x (evars e')) && Nat.leb (lit_depth e') kfuel then [(x, e')] else []) ++ E
   | _ => E
   end.
 
@@ -298,7 +304,7 @@ End Validator.
 (* no literal replacement allowed: the validator of copy propagation alone *)
 Definition no_claims (_ : claim) : bool := false.
 Definition no_guess (_ : facts) (_ : expr) : option ctx := None.
-Definition validate_copyprop (d : nat) := vrw_func no_claims no_guess d.
+Definition validate_copyprop (d : nat) := vrw_func 1 no_claims no_guess d.
 
 (* the pass that the soundness theorem is about: the repaired analysis, its
    result re-checked by the verified validator (identity when rejected) *)
